@@ -1294,7 +1294,7 @@ class Engine:
         if lp.range_is is not None:
             rl = to_num(self.ev(ast.parse(lp.range_is[0], mode="eval").body, st, True, self.spec_ctx()))
             rh = to_num(self.ev(ast.parse(lp.range_is[1], mode="eval").body, st, True, self.spec_ctx()))
-            self.emit("assert", f"loop{ordn}:range-is", z3.And(lo == rl, hi == rh), st.guard, self.c.props)
+            self.emit("assert", f"loop{ordn}:range-is", z3.And(lo == rl, hi == rh), st.guard, lp.range_props)
         for gs in lp.ghost_pre:
             self.exec_ghost(gs, st)
         at_loop = dict(st.vars)
